@@ -33,18 +33,26 @@ impl Run {
         Ok(cp)
     }
 
-    // Copy all current state into the file.
+    // Copy all current state into the file. The data is written to a temporary file
+    // that is then renamed over the real one, so that an interrupted save leaves either
+    // the previous or the new content in place, never a truncated file.
     pub(crate) fn save(&mut self) -> Result<(), MonorailError> {
+        let mut tmp_name = self.path.as_os_str().to_owned();
+        tmp_name.push(".tmp");
+        let tmp_path = path::PathBuf::from(tmp_name);
         let mut file = fs::OpenOptions::new()
             .write(true)
             .truncate(true)
             .create(true)
-            .open(&self.path)?;
+            .open(&tmp_path)?;
         #[cfg(pnordahl_monorail_verif)]
         crate::verif::point("tracking.run.truncated");
 
         let data = serde_json::to_vec(self)?;
         file.write_all(&data)?;
+        file.sync_all()?;
+        drop(file);
+        fs::rename(&tmp_path, &self.path)?;
         #[cfg(pnordahl_monorail_verif)]
         crate::verif::point("tracking.run.written");
         Ok(())
